@@ -36,7 +36,7 @@ ASSUMPTIONS = [
     "no other live node has taken over a serialized id at deserialization time (alive-subsets arise from dropping handles / detaching whole trees)",
     "Any-typed properties, NaN/inf, lone surrogates and ints beyond 64 bits are outside the generator",
 ]
-MUST_SEE = ["origins_with_user_defined_parts", "foreign_source_dump_loaded", "twin_population_changed_before_read", "user_dialect_roundtrips", "payload_read_again", "equal_but_distinct_source_objects", "subclass_clear_registry_calls", "union_field_non_first_member", "other_dialect_call_before_roundtrip", "recreated_with_suffix_id", "shared_subtrees", "fresh_process_cases", "subforest_alive", "none_alive", "all_alive", "multi_origin", "hostile_strings", "index_sources", "yaml", "msgpck", "json", "failed_call_before_roundtrip"]
+MUST_SEE = ["source_index_zero_in_use", "origins_with_user_defined_parts", "foreign_source_dump_loaded", "twin_population_changed_before_read", "user_dialect_roundtrips", "payload_read_again", "equal_but_distinct_source_objects", "subclass_clear_registry_calls", "union_field_non_first_member", "other_dialect_call_before_roundtrip", "recreated_with_suffix_id", "shared_subtrees", "fresh_process_cases", "subforest_alive", "none_alive", "all_alive", "multi_origin", "hostile_strings", "index_sources", "yaml", "msgpck", "json", "failed_call_before_roundtrip"]
 CONFIG = {
     "quick": {"shards": 16, "trees": 60, "fresh": 6, "watchdog_s": 600},
     "thorough": {"shards": 32, "trees": 400, "fresh": 60, "watchdog_s": 3400},
@@ -139,6 +139,12 @@ def run_shard(ctx):
     U = core_universe()
     P = U.P
     fresh_jobs = []
+    if ctx.shard % 2 == 0:
+        # a new index-based dump starts from an empty source registry: the first source of the model gets index 0 (an index
+        # like any other); in the other shards index 0 belongs to a source no tree refers to
+        Source.clear_registry()
+        O._SRC_CACHE.clear()
+        ctx.count("source_index_zero_in_use")
     for i in range(O.N_SOURCES):
         O.source(i)
     if ctx.shard % 2:
